@@ -1,6 +1,8 @@
 /-
 Driver mode `include`: one case = TAB-separated fields
   main=<P>   file=<hex path>=<R>  …   search=<hex path>,…|-   env=<hex path>,…|-
+  [entry=file  mainpath=<hex path>]   (file entry point: the top-level text is the content of the file `mainpath`
+                                       resolves to; `main=` is then ignored)
 with <P> = `LEX n` | `SYN n inc,inc` | `AST <I5 sexp>` (as printed by `oq3-run incscan`) and
 <R> = `DIR` (exists but is not a readable file) | <P> of the file's content.
 Prints the line of `oq3-run include` (I6 of the main context; `inc=` tree; `semtree=`).
@@ -8,6 +10,7 @@ Prints the line of `oq3-run include` (I6 of the main context; `inc=` tree; `semt
 import Oq3.Driver.Sema
 import Oq3.Driver.Lex
 import Oq3.Model.Includes
+import Oq3.Model.EntryPoints
 
 namespace Oq3.Driver
 open Oq3.Includes Oq3.Driver.SemaD
@@ -63,33 +66,47 @@ def includeLine (line : String) : String :=
     match get k with
     | some "-" | none => none
     | some s => some ((s.splitOn ",").filter (· ≠ "") |>.map unhexPath)
-  match get "main" with
-  | none => "bad-case"
-  | some mainS =>
-    match parseP mainS with
-    | .error e => s!"BAD-AST {e}"
-    | .ok mainP =>
-      -- the "content" of a file is its path (contents are opaque to the model: `parse` looks
-      -- the parsed form up by path)
-      let fs : FS :=
-        { isFile := fun p => match files.lookup p with | some r => r != "DIR" | none => false
-          read := fun p => match files.lookup p with
-            | some "DIR" => .other
-            | some _ => .ok p
-            | none => .notFound }
-      let parse : String → Parsed := fun content =>
-        match files.lookup content with
-        | some r => match parseP r with | .ok p => p | .error _ => .lexErrors 999
-        | none => .lexErrors 999
-      let search := plist "search"
-      let env := plist "env"
-      let nfiles := files.length
+  let showFlags (sm : Summary) : String :=
+    let b (x : Bool) := if x then "1" else "0"
+    s!";xflags=syn:{b sm.anySyntax},sem:{b sm.anySemantic},any:{b sm.anyErrors},nsyn:{sm.numSyntax},nstmt:{sm.numStmts}"
+  -- the "content" of a file is its path (contents are opaque to the model: `parse` looks
+  -- the parsed form up by path)
+  let fs : FS :=
+    { isFile := fun p => match files.lookup p with | some r => r != "DIR" | none => false
+      read := fun p => match files.lookup p with
+        | some "DIR" => .other
+        | some _ => .ok p
+        | none => .notFound }
+  let parse : String → Parsed := fun content =>
+    match files.lookup content with
+    | some r => match parseP r with | .ok p => p | .error _ => .lexErrors 999
+    | none => .lexErrors 999
+  let search := plist "search"
+  let env := plist "env"
+  let nfiles := files.length
+  -- the top-level source: a string (its parsed form is given), or a file (resolved, read and parsed like an include)
+  let top : Except String (String × Parsed) :=
+    match get "entry", get "mainpath" with
+    | some "file", some mp =>
+      match parseEntry fs (fun _ => .lexErrors 0) search env 1 (.file (unhexPath mp)) with
+      | .error (.panic site) => .error ("PANIC " ++ site)
+      | .error .fuel => .error "FUEL"
+      | .ok (tag, _, _) => .ok (tag, parse tag)
+    | _, _ =>
+      match get "main" with
+      | none => .error "bad-case"
+      | some mainS => match parseP mainS with
+        | .error e => .error s!"BAD-AST {e}"
+        | .ok mainP => .ok ("no file", mainP)
+  match top with
+  | .error e => e
+  | .ok (tag, mainP) =>
       match parseIncludedFiles fs parse search env (8 * (nfiles + 4)) (includesOf mainP) with
       | .error (.panic site) => "PANIC " ++ site
       | .error .fuel => "FUEL"
       | .ok included =>
         if !mainP.haveParse then
-          s!"SYNTAX-ERRORS;inc=[];semtree=(no file [] [])"
+          s!"SYNTAX-ERRORS;inc=[];semtree=({tag} [] []){showFlags (summarize mainP [] none)}"
         else
         let incS := " ".intercalate (included.map showSrc)
         let fuel := 100000
@@ -97,9 +114,9 @@ def includeLine (line : String) : String :=
         | .error (.panic site) => "PANIC " ++ site
         | .error .fuel => "FUEL"
         | .error .unsupportedInclude => "UNSUPPORTED-INCLUDE"
-        | .ok none => s!"SYNTAX-ERRORS;inc=[{incS}];semtree=(no file [] [])"
+        | .ok none => s!"SYNTAX-ERRORS;inc=[{incS}];semtree=({tag} [] []){showFlags (summarize mainP included none)}"
         | .ok (some (c, trees)) =>
           let own := ",".intercalate (c.semanticErrors.map fun e => s!"{errorKindS e.kind}@{e.start}-{e.stop}")
-          s!"{showCtx c};inc=[{incS}];semtree=(no file [{own}] [{" ".intercalate (trees.map showErrTree)}])"
+          s!"{showCtx c};inc=[{incS}];semtree=({tag} [{own}] [{" ".intercalate (trees.map showErrTree)}]){showFlags (summarize mainP included (some (c, trees)))}"
 
 end Oq3.Driver
